@@ -210,12 +210,14 @@ def load_known():
     f = VERIF / 'known_findings.json'
     k = json.loads(f.read_text()) if f.exists() else {'open': [], 'fixed': []}
     k.setdefault('open', []); k.setdefault('fixed', [])
-    seen = {canon(e) for e in k['open'] + k['fixed']}
+    def key(e):
+        return (e.get('property'), e.get('signature'), e.get('commit'), e.get('status'))
+    seen = {key(e) for e in k['open'] + k['fixed']}
     d = VERIF / 'known_findings.d'
     if d.is_dir():            # per-defect files, merged into known_findings.json by tools/mkknown.py
         for g in sorted(d.glob('*.json')):
             e = json.loads(g.read_text())
-            if canon(e) not in seen:
+            if key(e) not in seen:
                 k['open' if e.get('status') == 'open' else 'fixed'].append(e)
     return k
 
